@@ -117,6 +117,38 @@ func init() {
 		if fsExpr == "" || nExpr == "" {
 			return "", fmt.Errorf("checkpoint frame arithmetic: frameSize / preCheckpointFrameN not found in checkpointWithExecutor")
 		}
+		// where the error-exit flag is armed: a deferred function that raises checkpointUnresolved when the
+		// function returns an error; its guard and its position relative to the execCheckpoint call.
+		var ckPos, deferPos int
+		deferGuard, deferBody := "", ""
+		ast.Inspect(fd.Body, func(n ast.Node) bool {
+			switch x := n.(type) {
+			case *ast.CallExpr:
+				if sel, ok := x.Fun.(*ast.SelectorExpr); ok && sel.Sel.Name == "execCheckpoint" && ckPos == 0 {
+					ckPos = int(x.Pos())
+				}
+			case *ast.IfStmt:
+				for _, st := range x.Body.List {
+					if d, ok := st.(*ast.DeferStmt); ok {
+						if fl, ok := d.Call.Fun.(*ast.FuncLit); ok && strings.Contains(c.src(fl), "checkpointUnresolved") && deferPos == 0 {
+							deferPos = int(d.Pos())
+							deferGuard = norm(c.src(x.Cond))
+							deferBody = norm(c.src(fl.Body))
+						}
+					}
+				}
+			}
+			return true
+		})
+		rel := "missing"
+		if deferPos != 0 && ckPos != 0 {
+			if deferPos < ckPos {
+				rel = "armed before execCheckpoint"
+			} else {
+				rel = "armed after execCheckpoint"
+			}
+		}
+		fmt.Fprintf(&sb, "/-- db.go checkpointWithExecutor: (guard of the deferred error-exit hook, where it is armed, its body) -/\ndef unresolvedDefer : String × String × String := (%q, %q, %q)\n\n", deferGuard, rel, deferBody)
 		fmt.Fprintf(&sb, "/-- db.go checkpointWithExecutor: `frameSize` -/\ndef frameSize (pageSize : Nat) : Nat := %s\n\n", fsExpr)
 		fmt.Fprintf(&sb, "/-- db.go checkpointWithExecutor: `preCheckpointFrameN` (frames replicated before the checkpoint) -/\ndef preCheckpointFrameN (pageSize lastSynced : Nat) : Nat :=\n  if %s then %s else 0\n\nend Litestream.Gen.CkptProtocol\n", condExpr, nExpr)
 		return sb.String(), nil
